@@ -1,7 +1,7 @@
 /* UNIT
 {
  "id": "PP.define.bnd",
- "file": "pp.c", "function": "define",
+ "file": "pp.c", "function": "define", "also_functions": ["macroparam", "macrovarargs"],
  "properties": {"C12": "contract", "C10": "contract", "C19": "safety"},
  "mode": "harness",
  "unwind": 10, "unwindset": ["strcmp.0:13"],
